@@ -129,6 +129,9 @@ pub struct InvSpec {
     /// for n seconds
     #[serde(default)]
     pub expiry: u64,
+    /// the invoice states an amount, and that amount is 0 (`amt` must be 0 too)
+    #[serde(default)]
+    pub zero: bool,
 }
 fn one() -> u8 {
     1
@@ -150,7 +153,7 @@ pub fn invoice_bytes(spec: &InvSpec) -> Vec<u8> {
     if spec.expiry > 0 {
         b = b.expiry_time(std::time::Duration::from_secs(spec.expiry));
     }
-    if spec.amt != 0 {
+    if spec.amt != 0 || spec.zero {
         b = b.amount_milli_satoshis(spec.amt);
     }
     let hops: String = if !spec.hops.is_empty() { spec.hops.clone() } else if spec.hint { String::from("L") } else { String::new() };
